@@ -159,6 +159,14 @@ impl<VM: VMBinding, R: Region + 'static> RegionPageResource<VM, R> {
     pub fn reset_cursor(&self, alloc: &AllocatedRegion<R>, address: Address) {
         let old = alloc.cursor();
         let new = address.align_up(BYTES_IN_PAGE);
+        #[cfg(feature = "mmtk_verif")]
+        crate::verif::emit(
+            crate::verif::EV_PR_RESET,
+            self.common() as *const _ as usize as u64,
+            new.as_usize() as u64,
+            alloc.region.end().as_usize() as u64,
+            alloc.region.start().as_usize() as u64,
+        );
         let pages = (old - new) / BYTES_IN_PAGE;
         self.common().accounting.release(pages);
         alloc.set_cursor(new);
